@@ -399,7 +399,12 @@ pub fn generate(rng: &mut Rng, tier: Tier) -> Plan {
             }
         }
         _ => {
-            let spec = gen_spline(rng);
+            let mut spec = gen_spline(rng);
+            if rng.chance(0.3) {
+                // a spline born with its coefficients
+                spec.preset = Some(gen_preset(rng, &spec));
+                spec.preset_share = rng.chance(0.5);
+            }
             let mut ops: Vec<Op> = Vec::new();
             for _ in 0..rng.usize_in(0, 3) {
                 let bad = rng.chance(0.25);
@@ -493,10 +498,69 @@ fn build_spline(spec: &SplineSpec) -> Result<Spl, Fail> {
     if t.len() < 2 || spec.k < 1 || t.len() <= spec.k {
         return Err(herr("bad spline spec"));
     }
+    use rateslib::dual::Vars;
+    let n = t.len() - spec.k;
+    if let Some(p) = &spec.preset {
+        if p.len() != n {
+            return Err(herr("spline preset of the wrong length in plan"));
+        }
+    }
     Ok(match spec.kind {
-        0 => Spl::F(hooks::ppspline_f64_wrap(PPSpline::new(spec.k, t, None))),
-        1 => Spl::D(hooks::ppspline_dual_wrap(PPSpline::new(spec.k, t, None))),
-        _ => Spl::D2(hooks::ppspline_dual2_wrap(PPSpline::new(spec.k, t, None))),
+        0 => {
+            let c = spec
+                .preset
+                .as_ref()
+                .map(|p| p.iter().map(|x| x.value()).collect::<Vec<f64>>());
+            Spl::F(hooks::ppspline_f64_wrap(PPSpline::new(spec.k, t, c)))
+        }
+        1 => {
+            let c = match &spec.preset {
+                None => None,
+                Some(p) => {
+                    let mut v: Vec<Dual> = Vec::new();
+                    for x in p {
+                        v.push(match x {
+                            Num::D { v, g } => to_dual(v.get(), g).map_err(herr)?,
+                            o => Dual::new(o.value(), vec![]),
+                        });
+                    }
+                    if spec.preset_share && !v.is_empty() {
+                        let anchor = v[0].clone();
+                        for (i, d) in v.iter_mut().enumerate() {
+                            if i % 2 == 0 && i > 0 {
+                                *d = d.to_new_vars(anchor.vars(), None);
+                            }
+                        }
+                    }
+                    Some(v)
+                }
+            };
+            Spl::D(hooks::ppspline_dual_wrap(PPSpline::new(spec.k, t, c)))
+        }
+        _ => {
+            let c = match &spec.preset {
+                None => None,
+                Some(p) => {
+                    let mut v: Vec<Dual2> = Vec::new();
+                    for x in p {
+                        v.push(match x {
+                            Num::D2 { v, g, h } => to_dual2(v.get(), g, h).map_err(herr)?,
+                            o => Dual2::new(o.value(), vec![]),
+                        });
+                    }
+                    if spec.preset_share && !v.is_empty() {
+                        let anchor = v[0].clone();
+                        for (i, d) in v.iter_mut().enumerate() {
+                            if i % 2 == 0 && i > 0 {
+                                *d = d.to_new_vars(anchor.vars(), None);
+                            }
+                        }
+                    }
+                    Some(v)
+                }
+            };
+            Spl::D2(hooks::ppspline_dual2_wrap(PPSpline::new(spec.k, t, c)))
+        }
     })
 }
 
